@@ -41,6 +41,9 @@ def e2e(rng, subprocess_c_locale):
 
 def run(chk, driver, tier):
     rng = chk.rng
+    # the LEGACY engine end to end (real files, all line-ending regimes, BOM, renderings that get shorter): props/v1e2e.py
+    import props.v1e2e as v1e2e
+    v1e2e.run(chk, 400 if tier == "thorough" else 40, driver, faults=0.1)
     n_in, n_sub = (1500, 300) if tier == "thorough" else (60, 24)
     chk.extra["rule"] = ("generated projects with all four line-ending regimes (LF, CRLF, CR, mixed), with/without final newline, BOM, control and non-ASCII characters, regex "
                          "metacharacters in surrounding text, unrelated and binary files beside the configured ones; update in-process and as a subprocess under an ASCII locale; "
